@@ -348,6 +348,9 @@ def programs():
 
             yield "def f(x, y):\n" + body, ref
     small = conds[:8] + conds[8:13] + [c for c in conds[13:] if "(y" in c[0] and "(x" in c[0]][:8]
+    # two tests of the same variable joined by `or` / `and`: a union argument whose members pass different operands
+    atoms = atomic_conditions()
+    small += [_or(atoms[0], atoms[1]), _or(atoms[2], atoms[1]), _and(atoms[4], _not(atoms[0]))]
     for (c1s, c1e), (c2s, c2e) in itertools.product(small, repeat=2):
         body = f"    if {c1s}:\n        if {c2s}:\n            show_error('e1')\n            return R0\n        return R1\n    elif {c2s}:\n        return R2\n    show_error('e2')\n    return R3\n"
 
